@@ -6,12 +6,17 @@ import hv
 from hv import Case
 
 SPEC = {
-    "lean_modules": ["Honeycomb.Props.C06", "Honeycomb.Props.C04Gen"],
+    "lean_modules": ["Honeycomb.Props.C06", "Honeycomb.Props.C04Gen", "Honeycomb.Props.C01GenApi", "Honeycomb.Props.C02GenApi", "Honeycomb.Props.C18Gen"],
     # Gen/AttrMoves.lean is re-translated from attributes/collections.rs before every build
-    "gen": ["attrs"],
+    "gen": ["attrs", "dispatch2", "dispatch3", "alloc"],
     "required_theorems": [
         # Props/C04Gen.lean: the translated AttrSparseVec::merge / split ARE the model's mergeS / splitS (program equality)
-        "C04_gen_merge_dispatch", "C04_gen_split_dispatch", "C04_gen_mergeS", "C04_gen_splitS","C06_error_leaves_map_unchanged", "C06_log_error_leaves_map_unchanged"],
+        "C04_gen_merge_dispatch", "C04_gen_split_dispatch", "C04_gen_mergeS", "C04_gen_splitS",
+        # Props/C01GenApi.lean, C02GenApi.lean: every `force_` form of the 2-D and 3-D API runs ONE internal function inside exactly ONE
+        # atomically_with_err (translator) and that function is the one the transactional form runs (so C06_error_leaves_map_unchanged,
+        # which is about `atomically p`, applies to the whole call)
+        "C01_gen_force_tables", "C02_gen_force_tables", "C01_gen_api", "C02_gen_api", "C18_gen_attr_loops",
+        "C06_error_leaves_map_unchanged", "C06_log_error_leaves_map_unchanged"],
     "trusted_base": [
         "Lean 4.33 kernel; axioms propext, Classical.choice, Quot.sound only",
         "model of fast-stm's Transaction::read/write/commit-on-Ok (Honeycomb/Model/Stm.lean: execLog, atomicallyLog) — hand-written after "
